@@ -90,6 +90,8 @@ package lightning
 // answer; everything reported without it is an error or PENDING
 //@ func (*LndClient).OutgoingPaymentStatus
 //@   tags C05
+// the lookup asks the node about exactly the payment hash it was given, and only for the final update
+//@   calls (routerrpc.RouterClient).TrackPaymentV2 asserts @hash [C05] hexok(hash) && bytes(in.PaymentHash) == hexdec(hash) && in.NoInflightUpdates
 //@   ensures @succeeded [C05] r1 == nil && r0.PaymentStatus == Succeeded ==> payment.Status == lnrpc.Payment_SUCCEEDED && r0.Preimage == payment.PaymentPreimage
 //@   ensures @failed [C05] r1 == nil && r0.PaymentStatus == Failed ==> (payment.Status == lnrpc.Payment_FAILED || payment.Status == lnrpc.Payment_UNKNOWN)
 
@@ -101,9 +103,22 @@ package lightning
 // preimage), definitive failure without error only for status "failed"; everything else is an error or PENDING
 //@ func (*CLNClient).OutgoingPaymentStatus
 //@   tags C05
+//@   calls (*CLNClient).Post asserts @hash [C05] typeis(body, mapof(string, string)) && ("payment_hash" in unbox(body, mapof(string, string))) && unbox(body, mapof(string, string))["payment_hash"] == paymentHash
 //@   ensures @succeeded [C05] r1 == nil && r0.PaymentStatus == Succeeded ==> payment.Status == "complete" && r0.Preimage == payment.PaymentPreimage
 //@   ensures @failed [C05] r1 == nil && r0.PaymentStatus == Failed ==> payment.Status == "failed"
 
 //@ func (*CLNClient).SendPayment
 //@   ensures @succeeded [C05] r1 == nil && r0.PaymentStatus == Succeeded ==> response.Status == "complete" && r0.Preimage == response.Preimage
 //@   ensures @failed [C05] r1 == nil && r0.PaymentStatus == Failed ==> response.Status == "failed"
+
+// ---- paid detection (C03): the adapters ask the node about exactly the hash they were given and report "settled"
+// exactly when the node's own state says so
+//@ func (*LndClient).InvoiceStatus
+//@   tags C03
+//@   calls (lnrpc.LightningClient).LookupInvoice asserts @hash [C03] hexok(hash) && bytes(in.RHash) == hexdec(hash)
+//@   ensures @settled [C03] r1 == nil ==> (r0.Settled <==> lookupInvoiceResponse.State == lnrpc.Invoice_SETTLED) && r0.PaymentHash == hash
+
+//@ func (*CLNClient).InvoiceStatus
+//@   tags C03
+//@   calls (*CLNClient).Post asserts @hash [C03] typeis(body, mapof(string, string)) && ("payment_hash" in unbox(body, mapof(string, string))) && unbox(body, mapof(string, string))["payment_hash"] == hash
+//@   ensures @settled [C03] r1 == nil ==> (r0.Settled <==> invoice.Status == "paid")
